@@ -88,6 +88,8 @@ def check(ctx, run):
                                                 'the bytes that prefix an element are not (depth, rank as used by compare)', loc)
     if formula_ok and flip:
         run.proved('R14.5', b.path, 'float-image', 'v = s ^ (((s >> 63) as u64) >> 1), sign byte ^ 0x80: monotone map of the f64 bits', loc)
+    elif formula_ok is None:
+        run.undecided('R14.5', b.path, 'float-image', 'no bytes derived from f64::to_bits are pushed in this function (the float image is computed elsewhere): its formula is not decided', loc)
     else:
         run.violation('R14.5', b.path, 'float-image', 'the order-preserving transform of the f64 bits is not  s ^ (((s >> 63) as u64) >> 1)  with the top byte xor 0x80: '
                       'negative numbers of different magnitude would sort in the wrong order', loc)
